@@ -185,7 +185,7 @@ def check_fraction(run, fx, rs):
                    "by ok_or / ok_or_else / `?` / a match, never merged with an absent fraction and defaulted")
     n = 0
     for f in rs.fns:
-        if f.hir is None:
+        if f.hir is None or f.kind == "Closure":
             continue
         for node, parent, grand in walk_parent(f.hir):
             if node.get("k") == "mcall" and node.get("name") == "to_nanoseconds" and "Fraction" in str(node.get("fn", "")):
@@ -232,7 +232,7 @@ def check_error_kinds(run, fx, rs):
                    "from_str/from_utf8 constructors is a RangeError")
     n = 0
     for f in rs.fns:
-        if f.hir is None:
+        if f.hir is None or f.kind == "Closure":
             continue
         isparse = f.file in ("src/parsers.rs", "src/parsers/timezone.rs") or \
             (f.name == "from_str" and (f.d.get("impl_trait") or "").endswith("FromStr")) or \
